@@ -589,7 +589,12 @@ func amountText(v any) (string, bool, bool) {
 	return fmt.Sprint(v), false, false
 }
 
-func (s *sweep) amounts(n int) {
+type amtCase struct {
+	path string
+	amt  *big.Int
+}
+
+func (s *sweep) amounts(n int, replay []amtCase) {
 	o := s.out
 	r := s.r
 	must(s.st.Sys.CreateLedger(s.ctx, "amt", ledger.Configuration{Bucket: "_default", Features: allOn.set()}))
@@ -604,7 +609,12 @@ func (s *sweep) amounts(n int) {
 	total := new(big.Int)
 	for o.Stats["cases"] < n {
 		var amt *big.Int
-		if idx < len(lattice)*len(paths) {
+		if replay != nil {
+			if idx >= len(replay) {
+				return
+			}
+			amt = replay[idx].amt
+		} else if idx < len(lattice)*len(paths) {
 			amt = lattice[idx/len(paths)]
 		} else {
 			amt = r.BigAmount()
@@ -614,6 +624,13 @@ func (s *sweep) amounts(n int) {
 			}
 		}
 		p := paths[idx%len(paths)]
+		if replay != nil {
+			for _, c := range paths {
+				if c.name == replay[idx].path {
+					p = c
+				}
+			}
+		}
 		dst := fmt.Sprintf("amt:%d", idx)
 		idx++
 		cs := L("amount", Q(p.name), amt.String())
@@ -756,7 +773,18 @@ func cmdHTTPSweep(args []string) int {
 	s := &sweep{st: st, out: out, r: NewRng(f.Seed), ctx: context.Background(), ledger: "l1"}
 	s.router = api.NewRouter(st.Sys, jwt.NewNoAuth(), nil, "verif", false, api.WithBulkerFactory(bulking.NewDefaultBulkerFactory()))
 	if f.Extra["focus"] == "amounts" {
-		s.amounts(f.N)
+		var rp []amtCase
+		if f.Replay != "" {
+			rp = []amtCase{}
+			for _, line := range ReadLines(f.Replay) {
+				sx, err := ParseSx(line)
+				must(err)
+				a, _ := new(big.Int).SetString(sx.List[2].Atom, 10)
+				rp = append(rp, amtCase{sx.List[1].Atom, a})
+			}
+			f.N = len(rp)
+		}
+		s.amounts(f.N, rp)
 		return 0
 	}
 	must(st.Sys.CreateLedger(s.ctx, "l1", ledger.Configuration{Bucket: "_default", Features: allOn.set()}))
